@@ -106,6 +106,7 @@ def _decode_result(o, res):
 class ListKernels:
     def __init__(self, mf, overflow_checks, repo, seed=0):
         self.mf = mf
+        self.repo = repo
         targets.register_primitive_enum(repo)
         targets.register_enum_from_source(os.path.join(repo, "bytecode/src/function.rs"), "BuiltInFunction")
         m = stridx.install(strmodels.install(models.base_models()))
@@ -370,4 +371,345 @@ def check_summary(s, profile, qs, timeout_ms, seed, prop):
                 w = ask(z3.And(pc, z3.Not(_seq_eq(post0, s.elems))), lab + ":fail=>list-unchanged")
                 if w:
                     out.append(finding("failure-changes-list", w, "a failing call leaves the list changed"))
+    return out
+
+
+# ---------------------------------------------------------------- index read `a[i]` (instruction vec_op with a variable index)
+IDX_KINDS = ("Int", "BigInt", "Byte")
+
+
+class ListIndexSummary:
+    def __init__(self, n, kind, elems, idx, paths, dt):
+        self.n, self.kind, self.elems, self.idx, self.paths, self.seconds = n, kind, elems, idx, paths, dt
+        self.method = "index"
+
+    @property
+    def arm(self):
+        return "len=%d,index:%s" % (self.n, self.kind)
+
+
+class ListIndexKernels:
+    """`a[i]`: vec_op "[i]" on a shared list; the result is a pointer (HeapPrimitive::ArrayPtr) to element i of the SAME list"""
+
+    def __init__(self, lk):
+        import utf8models
+        from opkernels import KTY
+        self.lk = lk
+        targets.register_enum_from_source(os.path.join(lk_repo(lk), "bytecode/src/variables/primitive.rs"), "HeapPrimitive")
+        utf8models.install(lk.ex.models)
+        self.fn = targets.find_one(lk.mf, r"^vec_op$")
+
+    def encoded_functions(self):
+        return {"instruction vec_op (list indexing arm)": {"mir_item": self.fn, "mir_lines": self.lk.mf.func(self.fn).nlines}}
+
+    def summarize(self, n, kind):
+        from opkernels import sym_payload
+        t = time.time()
+        elems = [z3.BitVec("e%d" % i, 32) for i in range(n)]
+        idx = sym_payload(kind, "i")
+        cells = {RECV: gcmodels.gccell(Adt("Vec", None, [prim("Int", Sc("i32", e)) for e in elems]))}
+        cells[("ctx",)] = Adt("Ctx", None, [Adt("Vec", None, [vecp(RECV)])] + [Opaque("ctx-field", i) for i in range(1, 6)])
+        cells[("iargs",)] = Adt("[]", None, [Opaque("strlit", '"[i]"')])
+        cells[("var", "i")] = prim(kind, idx)
+        paths = []
+        for o in self.lk.ex.run(self.fn, [Ref(("ctx",)), Ref(("iargs",))], cells=cells):
+            pc = z3.And(*o.pc) if o.pc else z3.BoolVal(True)
+            if o.kind == "panic":
+                paths.append((pc, "panic", o.value.msg))
+                continue
+            if o.value.variant == "Err":
+                paths.append((pc, "err", None))
+                continue
+            stack = o.cells[("ctx",)].fields[0]
+            res = stack.fields[0] if len(stack.fields) == 1 else None
+            if not (isinstance(res, Adt) and res.variant == "HeapPrimitive" and res.fields[0].variant == "ArrayPtr"):
+                raise Inconclusive("list indexing left %r" % (stack,))
+            vec, at = res.fields[0].fields
+            ref = vec.fields[0].fields[0]
+            paths.append((pc, "ok", (ref.cell, at.e)))
+        return ListIndexSummary(n, kind, elems, idx, paths, time.time() - t)
+
+
+def lk_repo(lk):
+    return lk.repo
+
+
+def index_check(s, profile, qs, timeout_ms, seed, prop):
+    from opkernels import KTY
+    from sym import INT_TYPES
+    bits, signed = INT_TYPES[KTY[s.kind]]
+    out = []
+    in_range = z3.Or(*[s.idx.e == z3.BitVecVal(k, bits) for k in range(s.n)]) if s.n else z3.BoolVal(False)
+    lab0 = "list[i][%s]/%s" % (s.arm, profile)
+
+    def ask(cond, label):
+        qs.obligations += 1
+        t = time.time()
+        c = z3.simplify(cond)
+        if z3.is_false(c):
+            qs.discharged += 1
+            return None
+        r, m = Q.solve(c, timeout_ms, seed)
+        qs.solver_s += time.time() - t
+        if r == z3.unsat:
+            qs.discharged += 1
+            return None
+        if r == z3.sat:
+            qs.violated += 1
+            ev = []
+            for i, e in enumerate(s.elems):
+                v = m.eval(e, model_completion=False)
+                ev.append(v.as_long() if z3.is_bv_value(v) else 10 + i)
+            # distinct element values make the element a pointer refers to recognisable in the native result
+            ev = [10 + i for i in range(s.n)] if len(set(ev)) != len(ev) else ev
+            return ev, m.eval(s.idx.e, model_completion=True).as_long()
+        qs.undecided.append(label)
+        return None
+
+    def finding(cls, w, detail):
+        ev, iv = w
+        f = Q.Finding(prop, "list.index", s.arm, cls, profile, index_native_args(s, ev, iv), detail)
+        f.native_op = "X:%d" % s.n
+        f.predicted_text = norm_native(index_eval(s, ev, iv))
+        f.predicted = None
+        f.via = "instruction `vec_op [i]`"
+        sv = iv - (1 << bits) if signed and iv >= 1 << (bits - 1) else iv
+        f.human = "%r[i] with i = %s %d" % (ev, s.kind, sv)
+        return f
+
+    for pi, (pc, kind, val) in enumerate(s.paths):
+        lab = "%s:path%d" % (lab0, pi)
+        if prop == "C17":
+            if kind == "panic":
+                w = ask(pc, lab + ":no-panic")
+                if w:
+                    out.append(finding("panic:" + Q.panic_class(val), w, "Rust panic `%s` while indexing a list" % val))
+            else:
+                qs.obligations += 1
+                qs.discharged += 1
+            continue
+        if kind == "ok":
+            cell, at = val
+            good = z3.And(in_range, z3.ZeroExt(128 - bits, s.idx.e) == z3.ZeroExt(64, at)) if cell == RECV else z3.BoolVal(False)
+            w = ask(z3.And(pc, z3.Not(good)), lab + ":ok=>pointer-to-element-i")
+            if w:
+                out.append(finding("ok-outside-domain", w, "a reference to an element is produced although the index is not the position of that element (or is out of range)"))
+        else:
+            w = ask(z3.And(pc, in_range), lab + ":fail=>out-of-range")
+            if w:
+                out.append(finding("spurious-failure", w, "indexing fails (%s) although the index is in range" % kind))
+    return out
+
+
+def index_native_args(s, ev, iv):
+    from opkernels import KTY
+    from sym import INT_TYPES
+    bits, _ = INT_TYPES[KTY[s.kind]]
+    return [("Int", v & 0xFFFFFFFF) for v in ev] + [(s.kind, iv & ((1 << bits) - 1))]
+
+
+def index_eval(s, ev, iv):
+    from opkernels import KTY
+    from sym import INT_TYPES
+    bits, _ = INT_TYPES[KTY[s.kind]]
+    subs = [(a, z3.BitVecVal(v, 32)) for a, v in zip(s.elems, ev)] + [(s.idx.e, z3.BitVecVal(iv, bits))]
+    hits = []
+    for pc, kind, val in s.paths:
+        if z3.is_true(z3.simplify(z3.substitute(pc, *subs))):
+            if kind == "ok":
+                at = z3.simplify(z3.substitute(val[1], *subs)).as_long()
+                hits.append("OK HeapInt %x" % (ev[at] & 0xFFFFFFFF) if (val[0] == RECV and at < len(ev)) else "OK pointer-outside")
+            else:
+                hits.append("PANIC" if kind == "panic" else "ERR")
+    if not hits or any(h != hits[0] for h in hits):
+        raise Inconclusive("list[i][%s]: %d paths enabled" % (s.arm, len(hits)))
+    return hits[0]
+
+
+def index_validate(summaries, nat_eval_raw, release):
+    from opkernels import KTY
+    from sym import INT_TYPES
+    vecs, want = [], {}
+    for si, s in enumerate(summaries):
+        bits, _ = INT_TYPES[KTY[s.kind]]
+        ivs = {0, 1, max(s.n - 1, 0), s.n, s.n + 1, (1 << bits) - 1, 1 << (bits - 1)}
+        if bits > 64:
+            ivs |= {1 << 64, (1 << 64) + 1}
+        ev = [10 + i for i in range(s.n)]
+        for gi, iv in enumerate(sorted(ivs)):
+            vid = "z%d_%d" % (si, gi)
+            vecs.append((vid, "X:%d" % s.n, index_native_args(s, ev, iv)))
+            want[vid] = (s, ev, iv)
+    res = nat_eval_raw(vecs, release)
+    mism = []
+    for vid, (s, ev, iv) in want.items():
+        pred = norm_native(index_eval(s, ev, iv))
+        got = norm_native(res[vid])
+        if pred != got:
+            mism.append((s.arm, ev, hex(iv), "engine", pred, "real", got))
+    return len(vecs), mism
+
+
+# ---------------------------------------------------------------- `a[k] op= v` (instruction bin_op_assign through an element pointer)
+ASSIGN_OPS = {"+=": lambda a, b: a + b, "-=": lambda a, b: a - b, "*=": lambda a, b: a * b,
+              "/=": lambda a, b: z3.SDiv(a, b) if False else a / b, "%=": lambda a, b: z3.SRem(a, b)}
+
+
+class ElemAssignSummary:
+    def __init__(self, op, n, k, elems, value, paths, dt):
+        self.op, self.n, self.k, self.elems, self.value, self.paths, self.seconds = op, n, k, elems, value, paths, dt
+        self.method = "elem_assign"
+
+    @property
+    def arm(self):
+        return "%s,len=%d,at=%d" % (self.op, self.n, self.k)
+
+    def native_spec(self):
+        return "P:%s:%d:%d" % (self.op, self.n, self.k)
+
+
+class ElemAssignKernels:
+    def __init__(self, lk):
+        import utf8models
+        self.lk = lk
+        targets.register_enum_from_source(os.path.join(lk.repo, "bytecode/src/variables/primitive.rs"), "HeapPrimitive")
+        utf8models.install(lk.ex.models)
+        self.fn = targets.find_one(lk.mf, r"^bin_op_assign$")
+
+    def encoded_functions(self):
+        return {"instruction bin_op_assign (element-pointer arm) + HeapPrimitive::update": {"mir_item": self.fn, "mir_lines": self.lk.mf.func(self.fn).nlines}}
+
+    def summarize(self, op, n, k):
+        t = time.time()
+        elems = [z3.BitVec("e%d" % i, 32) for i in range(n)]
+        value = z3.BitVec("v", 32)
+        cells = {RECV: gcmodels.gccell(Adt("Vec", None, [prim("Int", Sc("i32", e)) for e in elems]))}
+        gv = Adt("GcVector", None, [Adt("Gc", None, [Ref(RECV)])])
+        ptr = Adt("Primitive", "HeapPrimitive", [Adt("HeapPrimitive", "ArrayPtr", [gv, sym.bv("usize", k)])])
+        cells[("ctx",)] = Adt("Ctx", None, [Adt("Vec", None, [ptr, prim("Int", Sc("i32", value))])] + [Opaque("ctx-field", i) for i in range(1, 6)])
+        cells[("iargs",)] = Adt("[]", None, [Opaque("strlit", '"%s"' % op)])
+        paths = []
+        for o in self.lk.ex.run(self.fn, [Ref(("ctx",)), Ref(("iargs",))], cells=cells):
+            pc = z3.And(*o.pc) if o.pc else z3.BoolVal(True)
+            if o.kind == "panic":
+                paths.append((pc, "panic", o.value.msg, None, None))
+                continue
+            post = _cell_contents(o, RECV)
+            if o.value.variant == "Err":
+                paths.append((pc, "err", None, None, post))
+                continue
+            stack = o.cells[("ctx",)].fields[0]
+            top = stack.fields[0] if len(stack.fields) == 1 else None
+            if not (isinstance(top, Adt) and top.variant == "Int"):
+                raise Inconclusive("element assignment left %r" % (stack,))
+            paths.append((pc, "ok", None, top.fields[0].e, post))
+        return ElemAssignSummary(op, n, k, elems, value, paths, time.time() - t)
+
+
+def assign_shapes(tier):
+    out = []
+    for op in ASSIGN_OPS:
+        for n in range(1, NMAX.get(tier, 3) + 1):
+            for k in range(n):
+                out.append((op, n, k))
+    return out
+
+
+def assign_native_args(s, ev, vv):
+    return [("Int", x & 0xFFFFFFFF) for x in ev] + [("Int", vv & 0xFFFFFFFF)]
+
+
+def assign_eval(s, ev, vv):
+    subs = [(a, z3.BitVecVal(x, 32)) for a, x in zip(s.elems, ev)] + [(s.value, z3.BitVecVal(vv, 32))]
+    hits = []
+    for pc, kind, msg, top, post in s.paths:
+        if z3.is_true(z3.simplify(z3.substitute(pc, *subs))):
+            if kind == "panic":
+                hits.append("PANIC")
+            elif kind == "err":
+                hits.append("ERR | %s" % _show_items(post, subs))
+            else:
+                hits.append("OK Int:%x | %s" % (z3.simplify(z3.substitute(top, *subs)).as_long(), _show_items(post, subs)))
+    if not hits or any(h != hits[0] for h in hits):
+        raise Inconclusive("list[k] %s: %d paths enabled on %r %r" % (s.arm, len(hits), ev, vv))
+    return hits[0]
+
+
+def assign_validate(summaries, nat_eval_raw, release):
+    vecs, want = [], {}
+    for si, s in enumerate(summaries):
+        ev = [10 + 3 * i for i in range(s.n)]
+        for gi, vv in enumerate((3, 0, -1 & 0xFFFFFFFF, 7, 0x7FFFFFFF)):
+            vid = "p%d_%d" % (si, gi)
+            vecs.append((vid, s.native_spec(), assign_native_args(s, ev, vv)))
+            want[vid] = (s, ev, vv)
+    res = nat_eval_raw(vecs, release)
+    mism = []
+    for vid, (s, ev, vv) in want.items():
+        pred = norm_native(assign_eval(s, ev, vv))
+        got = norm_native(res[vid])
+        if pred != got:
+            mism.append((s.arm, ev, vv, "engine", pred, "real", got))
+    return len(vecs), mism
+
+
+def assign_check(s, profile, qs, timeout_ms, seed):
+    """C13: after `a[k] op= v` the shared list holds e[k] op v at position k (operands in this order), every other element is
+    untouched, and the value left on the operand stack is the new element; a failing assignment changes nothing.
+    Which operand values make the arithmetic fail or panic is C05's / C17's business and is not judged here."""
+    out = []
+    e, v, k = s.elems, s.value, s.k
+    opf = {"+=": lambda a, b: a + b, "-=": lambda a, b: a - b, "*=": lambda a, b: a * b,
+           "/=": lambda a, b: a / b, "%=": lambda a, b: z3.SRem(a, b)}[s.op]
+    lab0 = "list[k]%s[%s]/%s" % (s.op, s.arm, profile)
+
+    def ask(cond, label):
+        qs.obligations += 1
+        t = time.time()
+        c = z3.simplify(cond)
+        if z3.is_false(c):
+            qs.discharged += 1
+            return None
+        r, m = Q.solve(c, timeout_ms, seed)
+        qs.solver_s += time.time() - t
+        if r == z3.unsat:
+            qs.discharged += 1
+            return None
+        if r == z3.sat:
+            qs.violated += 1
+
+            def val(x, d):
+                y = m.eval(x, model_completion=False)
+                return y.as_long() if z3.is_bv_value(y) else d
+            return [val(a, 10 + 3 * i) for i, a in enumerate(e)], val(v, 3)
+        qs.undecided.append(label)
+        return None
+
+    def finding(cls, w, detail):
+        ev, vv = w
+        f = Q.Finding("C13", "list.elem_assign", s.arm, cls, profile, assign_native_args(s, ev, vv), detail)
+        f.native_op = s.native_spec()
+        f.predicted_text = norm_native(assign_eval(s, ev, vv))
+        f.predicted = None
+        f.via = "instruction `bin_op_assign %s` through an element pointer" % s.op
+        sg = lambda x: x - (1 << 32) if x >= 1 << 31 else x
+        f.human = "a = %r; a[%d] %s %d" % ([sg(x) for x in ev], k, s.op, sg(vv))
+        return f
+
+    for pi, (pc, kind, msg, top, post) in enumerate(s.paths):
+        lab = "%s:path%d" % (lab0, pi)
+        if kind == "panic":
+            continue
+        if kind == "err":
+            w = ask(z3.And(pc, z3.Not(_seq_eq(post, e))), lab + ":fail=>list-unchanged")
+            if w:
+                out.append(finding("failure-changes-list", w, "a failing element assignment leaves the list changed"))
+            continue
+        want = [opf(e[i], v) if i == k else e[i] for i in range(s.n)]
+        w = ask(z3.And(pc, z3.Not(_seq_eq(post, want))), lab + ":ok=>element-updated")
+        if w:
+            out.append(finding("wrong-contents", w, "the list does not hold `element op value` at the assigned position (or another element changed)"))
+        w = ask(z3.And(pc, top != opf(e[k], v)), lab + ":ok=>value-of-the-assignment")
+        if w:
+            out.append(finding("wrong-result", w, "the value left on the operand stack is not the new element"))
     return out
